@@ -42,6 +42,16 @@ def gen(rng, tier):
         mode = G.pick_mode(rng)
         kind = rng.choice(['le', 'le', 'ne', 'any'])
         ivs = G.rand_ivs(rng, mode, rng.choice([0, 1, 2, 3, 5, 8, 12]), kind)
+        if rng.random() < 0.12:
+            # many SHORT intervals (small max_len): a jump of the query passes dozens of them in one cursor walk
+            mode = 'medium'
+            xs = sorted(rng.sample(range(0, 900), rng.choice([25, 40, 70])))
+            ivs = [(x, x + rng.randint(1, 4)) for x in xs]
+            kind = 'le'
+        elif rng.random() < 0.08:
+            # many intervals, so that one query step passes dozens of them (long cursor walks)
+            mode = 'medium'
+            ivs = G.rand_ivs(rng, mode, rng.choice([20, 35, 60]), kind if kind != 'any' else 'le')
         cur = list(ivs)
         ops = []
         nid = len(ivs)
